@@ -253,7 +253,7 @@ func cmdCheck(args []string) {
 		solverSeed = 0
 		// cvc5 cross-check on every 7th obligation
 		saved := solvers
-		solvers = solvers[2:]
+		solvers = solvers[1:2]
 		var cc []*Obl
 		for i, o := range todo {
 			if i%7 == 0 && o.Status == "discharged" && !o.Canary {
@@ -411,10 +411,12 @@ func cmdCheck(args []string) {
 		Status string `json:"status"`
 		Solver string `json:"backend,omitempty"`
 		MS     int    `json:"ms,omitempty"`
+		MaxMS  int    `json:"slowest_conjunct_ms,omitempty"`
+		Slow   string `json:"slowest_conjunct,omitempty"`
 	}
 	var recs []oblRec
 	for _, o := range sel {
-		recs = append(recs, oblRec{o.Name, o.Kind, o.Status, o.Solver, o.TimeMS})
+		recs = append(recs, oblRec{o.Name, o.Kind, o.Status, o.Solver, o.TimeMS, o.MaxPartMS, o.SlowPart})
 	}
 	wall := time.Since(t0).Seconds()
 	ev := map[string]interface{}{
